@@ -670,14 +670,14 @@ Proof.
 Qed.
 
 (* non-vacuity: a layer and a manifest listing it, with the bytes function they come from *)
-Definition fg_B (g : N) : blob := if g =? 9 then mkBlob 9 20 [(6, 1, 5)] 9 [(6, 1, 5)] else mkBlob 1 5 [] 1 [].
-Definition fg_hist : list op :=
+Definition fgx_B (g : N) : blob := if g =? 9 then mkBlob 9 20 [(6, 1, 5)] 9 [(6, 1, 5)] else mkBlob 1 5 [] 1 [].
+Definition fgx_hist : list op :=
   [Push w_named w_good; Push (mkDesc 1 9 20 0) (mkBlob 9 20 [(6, 1, 5)] 9 [(6, 1, 5)]); Preds w_layer].
-Lemma fg_wf : Forall (wfB_op fg_B) fg_hist /\ Forall no_alias fg_hist.
+Lemma fgx_wf : Forall (wfB_op fgx_B) fgx_hist /\ Forall no_alias fgx_hist.
 Proof.
   split.
   - repeat constructor; intros _; reflexivity.
   - repeat constructor; try reflexivity; intros k n [].
 Qed.
-Lemma fg_run : snd (runf (file_step true false false) file_init fg_hist) = [FO OOk; FO OOk; FO (OPreds [(1, 9, 20)])].
+Lemma fgx_run : snd (runf (file_step true false false) file_init fgx_hist) = [FO OOk; FO OOk; FO (OPreds [(1, 9, 20)])].
 Proof. vm_compute. reflexivity. Qed.
